@@ -1160,6 +1160,11 @@ func reachesFn(f, target *ssa.Function, seen map[*ssa.Function]bool) bool {
 		return false
 	}
 	seen[f] = true
+	for _, g := range funcOperands(f) {
+		if g == target || reachesFn(g, target, seen) {
+			return true
+		}
+	}
 	for _, ci := range core.Calls(f) {
 		g := ci.Common().StaticCallee()
 		if g == target {
